@@ -35,6 +35,8 @@ func main() {
 		Findings []balenum.Finding `json:"findings"`
 		Extra    map[string]int64  `json:"extra"`
 		Wall     float64           `json:"wall_s"`
+		Blocks   int               `json:"blocks"`
+		Cut      int               `json:"blocks_cut"`
 	}
 	if err := json.Unmarshal(b, &s); err != nil {
 		ev.InfraError("harness summary unreadable: %v", err)
@@ -43,7 +45,7 @@ func main() {
 		ev.InfraError("harness ran nothing")
 	}
 	r := ev.New("C26", "exploration")
-	r.Rule("the C25 sticky enumeration (members x subscriptions x partition counts x prior ownership incl. conflicting and stale-generation claims x racks x count-map insertion order), each input run through the sticky engine for sticky and for cooperative-sticky before AdjustCooperative; oracle (i) brute-force search for an improving chain of moves in the member graph, (ii) a valid, complete, optimal same-generation current assignment must be returned unchanged; distinct = distinct (balancer, members, partition counts, subscriptions, resulting plan)")
+	r.Rule("the C25 sticky enumeration (members x subscriptions x partition counts x prior ownership incl. conflicting and stale-generation claims x racks x count-map insertion order) plus the complex-path sweep (4-5 members x 3-4 topics with partition-count mixes like {1,1,4} x every member on every non-empty topic subset x prior = nothing owned | every valid complete assignment, hence every staircase of loads k,k+1,k+2,k+3 that multi-hop steal chains climb), each input run through the sticky engine for sticky and for cooperative-sticky before AdjustCooperative; oracle (i) brute-force search for an improving chain of moves in the member graph, (ii) a valid, complete, optimal same-generation current assignment must be returned unchanged; distinct = distinct (balancer, members, partition counts, subscriptions, resulting plan)")
 	r.Assume(
 		"the harness rebuilds the []sticky.GroupMember exactly as stickyBalancer.Balance does (copied field by field) to obtain the cooperative plan before AdjustCooperative; for eager sticky the real stickyBalancer.Balance is called",
 		"Go map iteration order inside the engine is not controlled: each input is run once per count-map insertion order; the oracles are order-independent",
@@ -54,6 +56,10 @@ func main() {
 	}
 	r.Set("bound_completed", s.Bound)
 	r.Set("harness_wall_s", s.Wall)
+	r.Set("blocks", s.Blocks)
+	if s.Cut > 0 {
+		r.NotExhaustive(fmt.Sprintf("time slice reached: %d of %d blocks (a block = one members/partition-counts/subscriptions/racks combination with all its priors) were not run; %d inputs were", s.Cut, s.Blocks, s.Evals))
+	}
 	r.Set("plans_per_balancer", s.PerBal)
 	r.Set("plans_per_sweep", s.PerSweep)
 	for k, v := range s.Extra {
